@@ -72,6 +72,10 @@ ConsistencyClauses(e) ==
   ELSE AllLeafClauses(e, e.obs, ObsLeaves(e.obs.items))
        \o Chk(e.obs.text_is_header_plus_lines, e, "C17.acl-text-is-not-header-plus-entry-lines")
        \o Chk(e.obs.reparse_same_text, e, "C17.rendered-text-does-not-parse-back-to-itself")
+(* "Given": the state of an object somebody else built and handed over (recorded executions of the repository's own
+   tests: the observation taken just before a recorded call).  Nothing is claimed about it; and when it is not a
+   consistent list in the sense above, nothing is claimed about the call made on it either (GivenOk). *)
+GivenOk(e) == e.act # "Given" /\ (~e.recorded \/ ConsistencyClauses([e EXCEPT !.obs = e.before]) = <<>>)
 
 ---------------------------------------------------------------------------
 (* facets of an item list, compared one by one so that a mismatch names what differs *)
@@ -127,6 +131,7 @@ ActionClauses(e) ==
       old == AllIds(pre)
   IN
   CASE e.act = "New" -> Chk(e.exc = "", e, "C17.build-failed")
+    [] e.act = "Given" -> <<>>
     [] e.act \in {"SetPortNr", "SetProtocolNr"} ->
          Chk(e.exc = "", e, "C17.switch-raised")
          \o Compare(e, Regroup(pre, pre.items), o.items, old, "C17")
@@ -283,7 +288,7 @@ Report(cs) == IF cs = <<>> THEN TRUE ELSE PrintT(ToJson([verdicts |-> cs]))
 Init == l = 1 /\ pre = Blank /\ twin = Blank
 Next == /\ l <= Len(TraceLog)
         /\ LET e == TraceLog[l] IN
-             /\ Report(ConsistencyClauses(e) \o ActionClauses(e) \o ShadowClauses(e))
+             /\ Report(IF GivenOk(e) THEN ConsistencyClauses(e) \o ActionClauses(e) \o ShadowClauses(e) ELSE <<>>)
              /\ pre' = StateOf(e.obs)
              /\ twin' = IF e.act \in {"Copy", "DataRoundTrip", "Reparse", "TwinOp"} THEN StateOf(e.twin) ELSE twin
         /\ l' = l + 1
